@@ -7,12 +7,96 @@ PROFILE = {'identity': 0.9, 'once': 0.25, 'blacklist': 0.3, 'failure': 0.5, 'pre
            'few_shapes': 0.7, 'scenarios': 0.6, 'affinity': 0.2, 'traits': 0.5, 'renew': 0.3, 'lease': 0.4, 'partitions': 0.5}
 
 
+def _master_violations(w, where):
+    """The statement on the real Master after a cycle: on its cell and on the identity fields it published."""
+    from .. import emaster
+    out = []
+    if where != 'after-cycle':
+        return out
+    cell = w.m.cell
+    held = {}
+    for name, app in cell.apps.items():
+        grp = app.identity_group_ref
+        if app.identity_group is None:
+            continue
+        if app.identity is not None:
+            held.setdefault(app.identity_group, {}).setdefault(app.identity, []).append(name)
+            if grp is not None and app.identity >= grp.count:
+                out.append(('identity-out-of-range', '%s: %s holds identity %r of group %s whose count is %r'
+                            % (where, name, app.identity, app.identity_group, grp.count)))
+            if not app.server:
+                out.append(('pending-holds-identity', '%s: %s is not placed and holds identity %r' % (where, name, app.identity)))
+        elif app.server:
+            out.append(('placed-without-identity', '%s: %s is placed on %s and holds no identity of group %s'
+                        % (where, name, app.server, app.identity_group)))
+    for g, ids in held.items():
+        for i, names in ids.items():
+            if len(names) > 1:
+                out.append(('identity-held-twice', '%s: identity %r of group %s is held by %s' % (where, i, g, sorted(names))))
+    # the identity field published in /placement/<server>/<instance>
+    pub = {}
+    for (s, a), data in emaster.placement_entries(w.b.d).items():
+        if a not in cell.apps or (s, a) in w.left_behind or (s, a) in w.api_deleted or s in w.pending_deletes:
+            continue
+        g = cell.apps[a].identity_group
+        if g is not None and isinstance(data, dict) and data.get('identity') is not None and cell.apps[a].server == s:
+            pub.setdefault((g, data['identity']), []).append(a)
+    for (g, i), names in pub.items():
+        if len(names) > 1:
+            out.append(('published-identity-twice', '%s: identity %r of group %s is published for %s' % (where, i, g, sorted(names))))
+    return out
+
+
+def master_stage(r, seed, n):
+    """Loader/Master level: the real Master over the in-memory backend on histories rich in identity-group events
+    (resized, deleted, re-created, also twice with no cycle in between; restarts forcing recorded identities back);
+    oracle-only - the failing-input search for Loader.load_identity_groups / restore_placement / force_set_identity."""
+    import random
+    from .. import emaster
+    rng = random.Random(seed + 505)
+    cycles = hits_total = 0
+    for _ in range(n):
+        case = emaster.gen_case(rng, profile='c05')
+        hits = []
+        try:
+            res = emaster.run_history(case, crash_points=False, want=(),
+                                      cell_hook=lambda w, where, hits=hits: hits.extend(_master_violations(w, where)))
+            cycles += res.get('stats', {}).get('cycles', 0) if isinstance(res, dict) else 0
+        except Exception as exc:   # noqa
+            r.broken_obligation('correspondence', 'C05 master stage could not drive the master: %s: %s'
+                                % (type(exc).__name__, str(exc)[:200]))
+            break
+        seen = set()
+        for sig, what in hits:
+            if sig in seen:
+                continue
+            seen.add(sig)
+            hits_total += 1
+            r.violation(sig, what, {'engine': 'E-master', 'case': case})
+    return {'master_stage': {'histories': n, 'master_cycles': cycles, 'violations': hits_total}}
+
+
 def run(tier, seed):
     spec = E.make_spec(PID, PROFILE, 'C05 profile: most instances belong to identity groups; groups grown, shrunk to '
                        'zero, deleted and re-created between cycles; schedule-once instances, blacklisting, server '
-                       'failures and capacity pressure')
+                       'failures and capacity pressure; loader restores forcing identities; plus a Master-level stage '
+                       '(E-master histories of identity-group events on the real Master, C05 oracle on its cell and on '
+                       'the published identity fields after every cycle)')
+    inner = spec['extra']
+
+    def extra(r, cases, obs):
+        cov = inner(r, cases, obs)
+        cov.update(master_stage(r, seed, 80 if tier == 'quick' else 3000))
+        return cov
+    spec['extra'] = extra
     core.standard_run(PID, tier, seed, spec)
 
 
 def replay_case(case):
+    if isinstance(case, dict) and case.get('engine') == 'E-master':
+        from .. import emaster
+        hits = []
+        emaster.run_history(case['case'], crash_points=False, want=(),
+                            cell_hook=lambda w, where: hits.extend(_master_violations(w, where)))
+        return hits[0] if hits else None
     return E.replay(PID, case)
